@@ -396,12 +396,28 @@ func faultSetStreams(w *World, ev func(string, ...any), stats map[string]int) *V
 		}
 	}
 	type strm struct {
-		in   chan *pubsubpb.StreamingPullRequest
-		done chan struct{}
-		err  error
+		in     chan *pubsubpb.StreamingPullRequest
+		done   chan struct{}
+		err    error
+		closed bool
 	}
+	var all []*strm
+	closeIn := func(st *strm) {
+		if !st.closed {
+			st.closed = true
+			close(st.in)
+		}
+	}
+	// whatever the verdict, no stream is left open behind (the bubble must drain)
+	defer func() {
+		for _, st := range all {
+			closeIn(st)
+		}
+		S.Settle()
+	}()
 	open := func(sub string) *strm {
 		st := &strm{in: make(chan *pubsubpb.StreamingPullRequest, 4), done: make(chan struct{})}
+		all = append(all, st)
 		fs := &fakeStream{ctx: ctx0, in: st.in, sent: func(*pubsubpb.StreamingPullResponse) {}}
 		go func() {
 			defer close(st.done)
@@ -450,7 +466,32 @@ func faultSetStreams(w *World, ev func(string, ...any), stats map[string]int) *V
 	if ended(b) {
 		return viol("C18", "e2e_stream_non_matching_failed", "an ack-only frame on the stream of %s was failed by the fault injected for %s: %v", subB, subA, b.err)
 	}
-	close(b.in)
+	// a fault for the stream-START operation, injected while a stream is open: frames of the
+	// open stream are a different operation and must pass; exactly the next start fails
+	w.Faults.Add(faults.Description{Operation: "StreamingPull", Count: 1, FaultDescription: "S",
+		OnFault: func(faults.Description, faults.Parameters) error { return status.Error(codes.Unavailable, "injected") }})
+	b.in <- &pubsubpb.StreamingPullRequest{AckIds: []string{"00000000-0000-0000-0000-000000000003"}}
+	S.Settle()
+	if ended(b) {
+		return viol("C18", "e2e_stream_non_matching_failed", "a frame on an open stream was failed by a fault injected for the stream-start operation: %v", b.err)
+	}
+	if s1 := open(subB); !ended(s1) || code(s1.err) != codes.Unavailable {
+		if !ended(s1) {
+			closeIn(s1)
+			S.Settle()
+		}
+		return viol("C18", "e2e_stream_exact_count", "the stream start that followed the injection of a stream-start fault (count 1) was not failed: ended=%v err=%v", ended(s1), s1.err)
+	}
+	s2 := open(subB)
+	if ended(s2) {
+		return viol("C18", "e2e_stream_exact_count", "a second stream start was failed by a stream-start fault with count 1: %v", s2.err)
+	}
+	closeIn(s2)
+	S.Settle()
+	if l := w.Faults.Current()["StreamingPull"]; len(l) != 0 {
+		return viol("C18", "listing", "the exhausted stream-start fault is still listed: %v", l)
+	}
+	closeIn(b)
 	S.Settle()
 	left := int64(-1)
 	for _, d := range w.Faults.Current()["StreamingPull:RecvMsg"] {
@@ -469,7 +510,7 @@ func faultSetStreams(w *World, ev func(string, ...any), stats map[string]int) *V
 	S.Settle()
 	if !ended(early) || code(early.err) != codes.Unavailable {
 		if !ended(early) {
-			close(early.in)
+			closeIn(early)
 			S.Settle()
 		}
 		return viol("C18", "e2e_stream_exact_count", "a fault injected after the stream was opened did not fail the stream's next frame: ended=%v err=%v", ended(early), early.err)
